@@ -216,20 +216,26 @@ package network_delegation
 //@ ghost func ndRewTotal(drs *DelegRewardStore) int = ndRRaw(drs)[ndRewTotalKey(drs)]
 //@ ghost func ndRewPend(drs *DelegRewardStore, h int, a bytes) int = ndRRaw(drs)[ndRewPendKey(drs, h, a)]
 
-// key builders: fmt.Sprintf is not modelled by the engine, so the produced text is assumed
-// (format strings read off the source).  ndRKind(k) is the family of a key (1 balance, 2 total,
-// 3 pending): the three families are disjoint because the text after the store prefix starts
-// with 'b', 't', 'p' respectively.
+// key builders: fmt.Sprintf with a constant format is modelled by the engine (T-FMT), so the produced text is
+// VERIFIED on the builders' bodies.  ndRKind(k) is the family of a key (1 balance, 2 total, 3 pending): the three
+// families are disjoint because the text after the store prefix starts with 'b', 't', 'p' respectively - that
+// classification is the part that stays trusted (a fact about the key texts, not about the code).
 //@ ghost func ndRKind(k string) int
-//@ assume func (*DelegRewardStore).getRewardsBalanceKey
+//@ func (*DelegRewardStore).getRewardsBalanceKey
+//@   requires drs != nil
 //@   modifies nothing
-//@   ensures !isnil(result) && str(result) == ndRewBalKey(drs, delegator) && ndRKind(str(result)) == 1
-//@ assume func (*DelegRewardStore).getTotalRewardsKey
+//@   ensures !isnil(result) && str(result) == ndRewBalKey(drs, delegator)                                    // C12.key-format
+//@   trusts ndRKind(str(result)) == 1
+//@ func (*DelegRewardStore).getTotalRewardsKey
+//@   requires drs != nil
 //@   modifies nothing
-//@   ensures !isnil(result) && str(result) == ndRewTotalKey(drs) && ndRKind(str(result)) == 2
-//@ assume func (*DelegRewardStore).getPendingRewardsKey
+//@   ensures !isnil(result) && str(result) == ndRewTotalKey(drs)                                             // C12.key-format
+//@   trusts ndRKind(str(result)) == 2
+//@ func (*DelegRewardStore).getPendingRewardsKey
+//@   requires drs != nil
 //@   modifies nothing
-//@   ensures !isnil(result) && str(result) == ndRewPendKey(drs, height, delegator) && ndRKind(str(result)) == 3
+//@   ensures !isnil(result) && str(result) == ndRewPendKey(drs, height, delegator)                           // C12.key-format
+//@   trusts ndRKind(str(result)) == 3
 
 // typed view of the State prefix (assumed: C09 State contracts + T-SER round trip of balance.Amount).
 // get returns amt == nil when State.Get fails, so freshness of amt is not stated (callers under contract
@@ -316,16 +322,22 @@ package network_delegation
 
 // scan of the pending reward records of one height.  The format "%spending_%d_" ends with the
 // separator, so (unlike Store.IteratePendingAmounts) only records of exactly that height match;
-// because fmt.Sprintf is not modelled this is read off the source, not proved (a replay on the real store
-// with records at heights 1, 2, 10, 11, 19, 100, 111 confirms it: IteratePD(1) yields only the height-1 record).
+// The body is VERIFIED as an iterator (prefix-scan discipline of the range it asks for, every yielded amount non-nil,
+// and per return site of the wrapper: 'stop' is answered only when the caller's callback asked for it); which records
+// the scan visits (the typed view of the yielded pair, pairwise distinct keys, the count) stays trusted (`trustyields`,
+// `count`; a replay on the real store with records at heights 1, 2, 10, 11, 19, 100, 111 confirms that IteratePD(1)
+// yields only the height-1 record).
 //@ ghost func ndPDA(drs *DelegRewardStore, height int, n int) string
 //@ ghost func ndPDCount(drs *DelegRewardStore, height int) int
-//@ assume func (*DelegRewardStore).IteratePD
-//@   iterator
+//@ func (*DelegRewardStore).IteratePD
+//@   iterator                                                                                                  // C12.scan
+//@   requires drs != nil && drs.state != nil
 //@   modifies nothing
+//@   trustframe
 //@   count ndPDCount(drs, height)
-//@   yields y1 != nil && str(y0) == ndPDA(drs, height, $n) && big(y1) == ndRewPend(drs, height, y0)
-//@   yields forall i int, j int :: 0 <= i && i < j && j < ndPDCount(drs, height) ==> ndRewPendKey(drs, height, bytes(ndPDA(drs, height, i))) != ndRewPendKey(drs, height, bytes(ndPDA(drs, height, j)))
+//@   yields y1 != nil                                                                                          // C12.scan
+//@   trustyields str(y0) == ndPDA(drs, height, $n) && big(y1) == ndRewPend(drs, height, y0)
+//@   trustyields forall i int, j int :: 0 <= i && i < j && j < ndPDCount(drs, height) ==> ndRewPendKey(drs, height, bytes(ndPDA(drs, height, i))) != ndRewPendKey(drs, height, bytes(ndPDA(drs, height, j)))
 
 // ================================================================ construction, genesis loading, remaining scans
 
